@@ -64,8 +64,13 @@ class PowellsMethod(HillClimbingOptimizer):
 
         idx_sorted = sort_list_idx(self.scores_valid)
 
-        self.powells_pos = [self.positions_valid[idx] for idx in idx_sorted][0]
-        self.powells_scores = [self.scores_valid[idx] for idx in idx_sorted][0]
+        if len(idx_sorted) == 0:
+            # no finite score yet: search along the line through the current position
+            self.powells_pos = self.pos_current
+            self.powells_scores = self.score_current
+        else:
+            self.powells_pos = [self.positions_valid[idx] for idx in idx_sorted][0]
+            self.powells_scores = [self.scores_valid[idx] for idx in idx_sorted][0]
 
         self.nth_iter_current_dim = 0
 
